@@ -1,0 +1,6 @@
+//go:build !verif
+
+package influxql
+
+func verifNoteScan(n int) {}
+func verifNoteRead(n int) {}
